@@ -9,20 +9,42 @@ import (
 	"golang.org/x/tools/go/ssa"
 )
 
-// ---- havoc: arbitrary value of a Go type, bounded ----------------------------------------
+// ---- havoc: arbitrary value of a Go type, bounded, lazily materialised ---------------------------
 
-var maxStr, maxSeq = 1, 2
+// hvar is a fresh symbolic value that does not come from the harness (stub results, havoc): it is
+// not part of the native input stream, its model value reaches the native replay through the stub log.
+func (r *Run) hvar(w int) *Term {
+	t := Var(fmt.Sprintf("hv%d_w%d", r.nsym, w), w)
+	r.nsym++
+	if r.concrete != nil {
+		if v, ok := r.concrete[t.name]; ok {
+			return BV(v, w)
+		}
+		return BVu(0, w)
+	}
+	return t
+}
+
+func (r *Run) param(name string, def int64) int64 {
+	if v, ok := r.inst.Params[name]; ok {
+		return v
+	}
+	return def
+}
 
 func (r *Run) havoc(t types.Type) Value {
 	if n, ok := t.(*types.Named); ok {
 		switch n.String() {
 		case "time.Time":
-			return r.anyTime()
+			return r.anyTime(false)
 		case "github.com/jcmturner/gofork/encoding/asn1.BitString":
-			nb := int(r.chooseInt(0, 4))
+			nb := int(r.chooseInt(0, r.param("maxbits", 4)))
 			s := r.makeSlice(types.Typ[types.Uint8], nb, nb)
 			for i := 0; i < nb; i++ {
-				elemsOf(s)[i] = r.input(8)
+				elemsOf(s)[i] = r.hvar(8)
+			}
+			if nb == 0 {
+				s = &SliceV{}
 			}
 			return StructV{s, BVi(int64(8*nb), 64)}
 		}
@@ -31,14 +53,14 @@ func (r *Run) havoc(t types.Type) Value {
 	case *types.Basic:
 		switch {
 		case u.Info()&types.IsBoolean != 0:
-			return Eq(r.input(1), BVu(1, 1))
+			return Eq(r.hvar(1), BVu(1, 1))
 		case u.Info()&types.IsInteger != 0:
-			return r.input(widthOf(t))
+			return r.hvar(widthOf(t))
 		case u.Info()&types.IsString != 0:
-			n := int(r.chooseInt(0, int64(maxStr)))
+			n := int(r.chooseInt(0, r.param("maxstr", 1)))
 			s := &StrV{b: make([]*Term, n)}
 			for i := range s.b {
-				s.b[i] = r.input(8)
+				s.b[i] = r.hvar(8)
 			}
 			return s
 		}
@@ -49,13 +71,13 @@ func (r *Run) havoc(t types.Type) Value {
 		}
 		return sv
 	case *types.Slice:
-		n := int(r.chooseInt(0, int64(maxSeq)))
+		n := int(r.chooseInt(0, r.param("maxseq", 2)))
+		if n == 0 {
+			return &SliceV{}
+		}
 		s := r.makeSlice(u.Elem(), n, n)
 		for i := 0; i < n; i++ {
 			elemsOf(s)[i] = r.lazy(u.Elem())
-		}
-		if n == 0 {
-			return &SliceV{}
 		}
 		return s
 	case *types.Pointer, *types.Interface, *types.Map, *types.Signature:
@@ -72,244 +94,12 @@ func (r *Run) havoc(t types.Type) Value {
 }
 
 func (r *Run) chooseInt(lo, hi int64) int64 {
-	v := r.input(64)
+	if lo == hi {
+		return lo
+	}
+	v := r.hvar(64)
 	r.addPC(And(SLe(BVi(lo, 64), v), SLe(v, BVi(hi, 64))))
 	return r.concretise(v, "havoc length")
-}
-
-// ---- linear time: Time{wall:0, ext: 128-bit ns since 0001-01-01 UTC, loc:nil} ------------
-
-const TW = 128
-
-var nsY1970 = new(big.Int).Mul(big.NewInt(62135596800), big.NewInt(1000000000))
-var nsY2262 = new(big.Int).Add(nsY1970, new(big.Int).Lsh(big.NewInt(1), 62))
-var nsY9999 = new(big.Int).Mul(big.NewInt(315537897599), big.NewInt(1000000000))
-
-func timeV(ns *Term) Value          { return StructV{BVu(0, 64), ns, &PtrV{}} }
-func nsOf(v Value) *Term {
-	t := v.(StructV)[1].(*Term)
-	if t.w != TW {
-		return SExt(t, TW) // zero Time{} has a 64-bit 0
-	}
-	return t
-}
-
-func (r *Run) anyTime() Value {
-	ns := r.fresh("time", TW)
-	r.inputs = append(r.inputs, ns)
-	r.addPC(And(SLe(BVi(0, TW), ns), SLe(ns, BV(nsY9999, TW))))
-	return timeV(ns)
-}
-
-func sat64(d *Term) *Term {
-	max := BV(new(big.Int).Sub(new(big.Int).Lsh(big.NewInt(1), 63), big.NewInt(1)), TW)
-	min := BV(new(big.Int).Neg(new(big.Int).Lsh(big.NewInt(1), 63)), TW)
-	return Extract(Ite(SLt(max, d), max, Ite(SLt(d, min), min, d)), 63, 0)
-}
-
-// stubSetOf assigns each stub of this file to a named set that instances enable explicitly.
-func stubSetOf(name string) string {
-	switch {
-	case strings.HasPrefix(name, "time.") || strings.HasPrefix(name, "(time.") || strings.HasSuffix(name, ".Now") || strings.HasSuffix(name, ".AdvanceClock") || strings.HasSuffix(name, ".AnyTime"):
-		return "lineartime"
-	case strings.HasPrefix(name, rtPkg), strings.HasPrefix(name, "math/rand."), strings.HasPrefix(name, "math/big."), strings.HasPrefix(name, "(*math/big."), strings.HasPrefix(name, "crypto/rand.Int"),
-		strings.HasPrefix(name, "context."), strings.HasPrefix(name, "github.com/hashicorp/go-uuid"):
-		return ""
-	}
-	return "proto"
-}
-
-type stubReg struct{ e *Engine }
-
-func (s stubReg) set(name string, f intrinsic) {
-	if set := stubSetOf(name); set != "" {
-		s.e.intrinsics[set+":"+name] = f
-	} else {
-		s.e.intrinsics[name] = f
-	}
-}
-
-func (e *Engine) registerStubs() {
-	reg := stubReg{e}
-	reg.set("time.Now", func(r *Run, fr *Frame, cc *ssa.CallCommon, a []Value) Value {
-		if v, ok := r.ghost["now"]; ok {
-			return v
-		}
-		ns := r.fresh("now", TW)
-		r.inputs = append(r.inputs, ns)
-		r.addPC(And(SLe(BV(nsY1970, TW), ns), SLe(ns, BV(nsY2262, TW))))
-		v := timeV(ns)
-		r.ghost["now"] = v
-		return v
-	})
-	reg.set(rtPkg+".Now", e.intrinsics["lineartime:time.Now"])
-	reg.set(rtPkg+".AdvanceClock", func(r *Run, fr *Frame, cc *ssa.CallCommon, a []Value) Value {
-		old, ok := r.ghost["now"]
-		ns := r.fresh("now", TW)
-		r.inputs = append(r.inputs, ns)
-		r.addPC(And(SLe(BV(nsY1970, TW), ns), SLe(ns, BV(nsY2262, TW))))
-		if ok {
-			r.addPC(SLe(nsOf(old), ns))
-		}
-		r.ghost["now"] = timeV(ns)
-		return nil
-	})
-	reg.set(rtPkg+".AnyTime", func(r *Run, fr *Frame, cc *ssa.CallCommon, a []Value) Value { return r.anyTime() })
-	reg.set("(time.Duration).Seconds", func(r *Run, fr *Frame, cc *ssa.CallCommon, a []Value) Value { return UF("seconds", 64, a[0].(*Term)) })
-	reg.set("(time.Time).UTC", func(r *Run, fr *Frame, cc *ssa.CallCommon, a []Value) Value { return a[0] })
-	reg.set("(time.Time).Sub", func(r *Run, fr *Frame, cc *ssa.CallCommon, a []Value) Value {
-		return sat64(Sub(nsOf(a[0]), nsOf(a[1])))
-	})
-	reg.set("(time.Time).Add", func(r *Run, fr *Frame, cc *ssa.CallCommon, a []Value) Value {
-		return timeV(Add(nsOf(a[0]), SExt(a[1].(*Term), TW)))
-	})
-	reg.set("(time.Time).After", func(r *Run, fr *Frame, cc *ssa.CallCommon, a []Value) Value { return SLt(nsOf(a[1]), nsOf(a[0])) })
-	reg.set("(time.Time).Before", func(r *Run, fr *Frame, cc *ssa.CallCommon, a []Value) Value { return SLt(nsOf(a[0]), nsOf(a[1])) })
-	reg.set("(time.Time).Equal", func(r *Run, fr *Frame, cc *ssa.CallCommon, a []Value) Value { return Eq(nsOf(a[0]), nsOf(a[1])) })
-	reg.set("(time.Time).IsZero", func(r *Run, fr *Frame, cc *ssa.CallCommon, a []Value) Value { return Eq(nsOf(a[0]), BVi(0, TW)) })
-	reg.set("(time.Time).UnixNano", func(r *Run, fr *Frame, cc *ssa.CallCommon, a []Value) Value {
-		return Extract(Sub(nsOf(a[0]), BV(nsY1970, TW)), 63, 0)
-	})
-	reg.set("(time.Time).Unix", func(r *Run, fr *Frame, cc *ssa.CallCommon, a []Value) Value {
-		return Extract(SDiv(Sub(nsOf(a[0]), BV(nsY1970, TW)), BVi(1000000000, TW)), 63, 0)
-	})
-
-	reg.set("math/rand.Intn", func(r *Run, fr *Frame, cc *ssa.CallCommon, a []Value) Value {
-		n := a[0].(*Term)
-		v := r.input(64)
-		r.addPC(And(SLe(BVi(0, 64), v), SLt(v, n)))
-		return v
-	})
-	// service.VerifyAPREQ as a nondeterministic verdict with a ghost flag
-	reg.set("github.com/jcmturner/gokrb5/v8/service.VerifyAPREQ", func(r *Run, fr *Frame, cc *ssa.CallCommon, a []Value) Value {
-		ok := Eq(r.input(1), BVu(1, 1))
-		r.ghost["apreq-accepted"] = ok
-		if r.branch(ok) {
-			return TupleV{True, &PtrV{}, &IfaceV{}}
-		}
-		en := r.eng.prog.ImportedPackage("errors").Func("New")
-		return TupleV{False, &PtrV{}, r.callFn(fr, en, []Value{concStr("rejected")}, lbl("stub"))}
-	})
-	reg.set(rtPkg+".Ghost", func(r *Run, fr *Frame, cc *ssa.CallCommon, a []Value) Value {
-		k, _ := a[0].(*StrV).Concrete()
-		if v, ok := r.ghost[k]; ok {
-			return v
-		}
-		return False
-	})
-	reg.set("context.Background", func(r *Run, fr *Frame, cc *ssa.CallCommon, a []Value) Value { return &IfaceV{} })
-	reg.set("context.WithValue", func(r *Run, fr *Frame, cc *ssa.CallCommon, a []Value) Value { return &IfaceV{} })
-	// PA-DATA hint decoders with fixed distinguishable salts; StringToKey records its salt
-	reg.set("(*github.com/jcmturner/gokrb5/v8/types.ETypeInfo2).Unmarshal", func(r *Run, fr *Frame, cc *ssa.CallCommon, a []Value) Value {
-		p := a[0].(*PtrV)
-		et := typeAt(p.obj.typ, p.path).Underlying().(*types.Slice).Elem()
-		sl := r.makeSlice(et, 1, 1)
-		elemsOf(sl)[0] = StructV{BVi(18, 32), concStr("2"), &SliceV{}}
-		r.store(p, sl, lbl("info2"))
-		return &IfaceV{}
-	})
-	reg.set("(*github.com/jcmturner/gokrb5/v8/types.ETypeInfo).Unmarshal", func(r *Run, fr *Frame, cc *ssa.CallCommon, a []Value) Value {
-		p := a[0].(*PtrV)
-		et := typeAt(p.obj.typ, p.path).Underlying().(*types.Slice).Elem()
-		sl := r.makeSlice(et, 1, 1)
-		elemsOf(sl)[0] = StructV{BVi(18, 32), r.bytesToSlice([]*Term{BVu('1', 8)})}
-		r.store(p, sl, lbl("info"))
-		return &IfaceV{}
-	})
-	reg.set("(github.com/jcmturner/gokrb5/v8/crypto.Aes256CtsHmacSha96).StringToKey", func(r *Run, fr *Frame, cc *ssa.CallCommon, a []Value) Value {
-		r.ghost["s2k-salt"] = a[2]
-		return TupleV{r.bytesToSlice(ufBytes("S2K", 32, a[1].(*StrV).b, a[2].(*StrV).b)), &IfaceV{}}
-	})
-	reg.set(rtPkg+".GhostString", func(r *Run, fr *Frame, cc *ssa.CallCommon, a []Value) Value {
-		k, _ := a[0].(*StrV).Concrete()
-		if v, ok := r.ghost[k]; ok {
-			return v
-		}
-		return &StrV{}
-	})
-	reg.set("(*github.com/jcmturner/gokrb5/v8/pac.KerbValidationInfo).Unmarshal", func(r *Run, fr *Frame, cc *ssa.CallCommon, a []Value) Value {
-		if r.branch(Eq(r.input(1), BVu(1, 1))) {
-			return &IfaceV{}
-		}
-		en := r.eng.prog.ImportedPackage("errors").Func("New")
-		return r.callFn(fr, en, []Value{concStr("ndr error")}, lbl("stub"))
-	})
-	reg.set("github.com/hashicorp/go-uuid.GenerateUUID", func(r *Run, fr *Frame, cc *ssa.CallCommon, a []Value) Value {
-		return TupleV{concStr("00000000-0000-0000-0000-000000000000"), &IfaceV{}}
-	})
-	// math/big as 64-bit boxes (only NewInt / rand.Int / Int64 are needed)
-	box := func(r *Run, t *Term) Value { return &PtrV{obj: r.newObj(types.Typ[types.Int64], t, "bigint")} }
-	reg.set("math/big.NewInt", func(r *Run, fr *Frame, cc *ssa.CallCommon, a []Value) Value { return box(r, a[0].(*Term)) })
-	reg.set("crypto/rand.Int", func(r *Run, fr *Frame, cc *ssa.CallCommon, a []Value) Value {
-		max := a[1].(*PtrV).obj.val.(*Term)
-		v := r.input(64)
-		r.addPC(And(SLe(BVi(0, 64), v), SLt(v, max)))
-		return TupleV{box(r, v), &IfaceV{}}
-	})
-	reg.set("(*math/big.Int).Int64", func(r *Run, fr *Frame, cc *ssa.CallCommon, a []Value) Value { return a[0].(*PtrV).obj.val })
-	// ---- decision-logic stubs ---------------------------------------------------------------
-	mk := func(r *Run, fr *Frame, msg string) Value {
-		en := r.eng.prog.ImportedPackage("errors").Func("New")
-		return r.callFn(fr, en, []Value{concStr(msg)}, lbl("stub"))
-	}
-	reg.set("github.com/jcmturner/gokrb5/v8/crypto.DecryptEncPart", func(r *Run, fr *Frame, cc *ssa.CallCommon, a []Value) Value {
-		ed := a[0].(StructV)  // EncryptedData{EType, KVNO, Cipher}
-		key := a[1].(StructV) // EncryptionKey{KeyType, KeyValue}
-		usage := a[2].(*Term)
-		cipher := r.force(&ed[2]).(*SliceV)
-		kv := r.force(&key[1]).(*SliceV)
-		args := []*Term{r.force(&key[0]).(*Term), usage}
-		name := fmt.Sprintf("authentic_c%d_k%d", cipher.len, kv.len)
-		if cipher.len > 0 {
-			args = append(args, catBytes(sliceBytes(cipher)))
-		}
-		if kv.len > 0 {
-			args = append(args, catBytes(sliceBytes(kv)))
-		}
-		ok := UF(name, 0, args...)
-		r.ghostLog("decrypt", ok)
-		if r.branch(ok) {
-			return TupleV{cipher, &IfaceV{}}
-		}
-		return TupleV{&SliceV{}, mk(r, fr, "decrypt failed")}
-	})
-	unm := func(typeName string) intrinsic {
-		return func(r *Run, fr *Frame, cc *ssa.CallCommon, a []Value) Value {
-			p := a[0].(*PtrV)
-			if r.branch(Eq(r.input(1), BVu(1, 1))) {
-				r.store(p, r.havoc(typeAt(p.obj.typ, p.path)), lbl("havoc "+typeName))
-				return &IfaceV{}
-			}
-			return mk(r, fr, "asn1 decode error")
-		}
-	}
-	reg.set("(*github.com/jcmturner/gokrb5/v8/messages.EncTicketPart).Unmarshal", unm("EncTicketPart"))
-	reg.set("(*github.com/jcmturner/gokrb5/v8/types.Authenticator).Unmarshal", unm("Authenticator"))
-	reg.set("(*github.com/jcmturner/gokrb5/v8/messages.EncKDCRepPart).Unmarshal", unm("EncKDCRepPart"))
-}
-
-func (r *Run) ghostLog(k string, v Value) {
-	var l []Value
-	if o, ok := r.ghost[k]; ok {
-		l = o.([]Value)
-	}
-	r.ghost[k] = append(l, v)
-}
-
-var _ = strings.Contains
-
-func typeAt(t types.Type, path []PathElem) types.Type {
-	for _, e := range path {
-		switch u := t.Underlying().(type) {
-		case *types.Struct:
-			t = u.Field(e.field).Type()
-		case *types.Array:
-			t = u.Elem()
-		default:
-			panic("typeAt")
-		}
-	}
-	return t
 }
 
 // lazy havoc: a field or element is materialised the first time it is read; copies share the cell
@@ -336,4 +126,334 @@ func (r *Run) force(slot *Value) Value {
 		*slot = copyVal(lz.c.val)
 	}
 	return *slot
+}
+
+func typeAt(t types.Type, path []PathElem) types.Type {
+	for _, e := range path {
+		switch u := t.Underlying().(type) {
+		case *types.Struct:
+			t = u.Field(e.field).Type()
+		case *types.Array:
+			t = u.Elem()
+		default:
+			panic("typeAt")
+		}
+	}
+	return t
+}
+
+// ---- linear time: Time{wall:0, ext: 128-bit ns since 0001-01-01 UTC, loc:nil} ------------
+
+const TW = 128
+
+var nsY1970 = new(big.Int).Mul(big.NewInt(62135596800), big.NewInt(1000000000))
+var nsY2262 = new(big.Int).Add(nsY1970, new(big.Int).Lsh(big.NewInt(1), 62))
+var nsY9999 = new(big.Int).Mul(big.NewInt(315537897599), big.NewInt(1000000000))
+
+func timeV(ns *Term) Value { return StructV{BVu(0, 64), ns, &PtrV{}} }
+func nsOf(v Value) *Term {
+	t := v.(StructV)[1].(*Term)
+	if t.w != TW {
+		return SExt(t, TW) // zero Time{} has a 64-bit 0
+	}
+	return t
+}
+
+// anyTime: an arbitrary instant (nanosecond count) in years 0001..9999.  KerberosTime has second
+// granularity; allowing every nanosecond over-approximates that and keeps the arithmetic linear
+// (a multiplication by 10^9 stalls every solver, see DESIGN 3.4).
+func (r *Run) anyTime(harness bool) Value {
+	var ns *Term
+	if harness {
+		ns = r.input(TW)
+	} else {
+		ns = r.hvar(TW)
+	}
+	r.addPC(And(SLe(BVi(0, TW), ns), SLe(ns, BV(nsY9999, TW))))
+	return timeV(ns)
+}
+
+func sat64(d *Term) *Term {
+	max := BV(new(big.Int).Sub(new(big.Int).Lsh(big.NewInt(1), 63), big.NewInt(1)), TW)
+	min := BV(new(big.Int).Neg(new(big.Int).Lsh(big.NewInt(1), 63)), TW)
+	return Extract(Ite(SLt(max, d), max, Ite(SLt(d, min), min, d)), 63, 0)
+}
+
+// stubSpec describes a nondeterministic stub for the native replay overlay: the function body is
+// replaced by a call that pops the recorded results.  outs: "recv" (pointer receiver is an output),
+// "ret<i>" (i-th non-error result); the last result must be error when hasErr.
+type stubSpec struct {
+	name   string // ssa function name
+	outs   []string
+	hasErr bool
+}
+
+func (e *Engine) stub(set, name string, spec *stubSpec, f intrinsic) {
+	fn := e.fnByName[name]
+	// every stub call logs its arguments (receiver first) so that harness oracles can talk about them
+	e.intrinsics[set+":"+name] = func(r *Run, fr *Frame, cc *ssa.CallCommon, a []Value) Value {
+		rec := make([]Value, len(a))
+		for i := range a {
+			var t types.Type
+			if fn != nil {
+				sig := fn.Signature
+				k := i
+				if sig.Recv() != nil {
+					if i == 0 {
+						t = sig.Recv().Type()
+					}
+					k = i - 1
+				}
+				if t == nil && k < sig.Params().Len() {
+					t = sig.Params().At(k).Type()
+				}
+			}
+			rec[i] = &IfaceV{t: t, v: copyVal(a[i])}
+		}
+		r.ghostLog("args:"+name, rec)
+		n0 := len(r.stubLog)
+		res := f(r, fr, cc, a)
+		ok := True
+		if len(r.stubLog) > n0 && r.stubLog[len(r.stubLog)-1].kind == "err" {
+			ok = False
+		}
+		r.ghostLog("ok:"+name, ok)
+		return res
+	}
+	if spec != nil {
+		spec.name = name
+		e.nativeStubs[name] = spec
+	}
+}
+
+// ghostBySuffix finds the ghost log whose stub name ends with the given short name.
+func (r *Run) ghostBySuffix(prefix, short string) []Value {
+	for k, v := range r.ghost {
+		if strings.HasPrefix(k, prefix) && strings.HasSuffix(k, short) {
+			return v.([]Value)
+		}
+	}
+	return nil
+}
+
+func (e *Engine) registerStubs() {
+	lt := func(name string, f intrinsic) { e.intrinsics["lineartime:"+name] = f }
+	now := func(r *Run, fr *Frame, cc *ssa.CallCommon, a []Value) Value {
+		if v, ok := r.ghost["now"]; ok {
+			return v
+		}
+		// the harness clock: nanosecond granularity, years 1970..2262
+		ns := r.hvar(TW)
+		r.addPC(And(SLe(BV(nsY1970, TW), ns), SLe(ns, BV(nsY2262, TW))))
+		v := timeV(ns)
+		r.ghost["now"] = v
+		r.clockLog = append(r.clockLog, ns)
+		return v
+	}
+	lt("time.Now", now)
+	lt(rtPkg+".Now", now)
+	lt(rtPkg+".AdvanceClock", func(r *Run, fr *Frame, cc *ssa.CallCommon, a []Value) Value {
+		old, ok := r.ghost["now"]
+		ns := r.hvar(TW)
+		r.addPC(And(SLe(BV(nsY1970, TW), ns), SLe(ns, BV(nsY2262, TW))))
+		if ok {
+			r.addPC(SLe(nsOf(old), ns))
+		}
+		r.ghost["now"] = timeV(ns)
+		r.clockLog = append(r.clockLog, ns)
+		return TupleV{}
+	})
+	lt(rtPkg+".AnyTime", func(r *Run, fr *Frame, cc *ssa.CallCommon, a []Value) Value { return r.anyTime(true) })
+	lt("(time.Duration).Seconds", func(r *Run, fr *Frame, cc *ssa.CallCommon, a []Value) Value { return UF("seconds", 64, a[0].(*Term)) })
+	lt("(time.Duration).String", func(r *Run, fr *Frame, cc *ssa.CallCommon, a []Value) Value {
+		return &StrV{opaque: UF("durstring", 64, a[0].(*Term))}
+	})
+	lt("(time.Time).UTC", func(r *Run, fr *Frame, cc *ssa.CallCommon, a []Value) Value { return a[0] })
+	lt("(time.Time).Sub", func(r *Run, fr *Frame, cc *ssa.CallCommon, a []Value) Value {
+		return sat64(Sub(nsOf(a[0]), nsOf(a[1])))
+	})
+	lt("(time.Time).Add", func(r *Run, fr *Frame, cc *ssa.CallCommon, a []Value) Value {
+		return timeV(Add(nsOf(a[0]), SExt(a[1].(*Term), TW)))
+	})
+	lt("(time.Time).After", func(r *Run, fr *Frame, cc *ssa.CallCommon, a []Value) Value { return SLt(nsOf(a[1]), nsOf(a[0])) })
+	lt("(time.Time).Before", func(r *Run, fr *Frame, cc *ssa.CallCommon, a []Value) Value { return SLt(nsOf(a[0]), nsOf(a[1])) })
+	lt("(time.Time).Equal", func(r *Run, fr *Frame, cc *ssa.CallCommon, a []Value) Value { return Eq(nsOf(a[0]), nsOf(a[1])) })
+	lt("(time.Time).IsZero", func(r *Run, fr *Frame, cc *ssa.CallCommon, a []Value) Value { return Eq(nsOf(a[0]), BVi(0, TW)) })
+	lt("(time.Time).UnixNano", func(r *Run, fr *Frame, cc *ssa.CallCommon, a []Value) Value {
+		return Extract(Sub(nsOf(a[0]), BV(nsY1970, TW)), 63, 0)
+	})
+	lt("(time.Time).Unix", func(r *Run, fr *Frame, cc *ssa.CallCommon, a []Value) Value {
+		return Extract(SDiv(Sub(nsOf(a[0]), BV(nsY1970, TW)), BVi(1000000000, TW)), 63, 0)
+	})
+	lt("time.Since", func(r *Run, fr *Frame, cc *ssa.CallCommon, a []Value) Value {
+		return sat64(Sub(nsOf(now(r, fr, cc, nil)), nsOf(a[0])))
+	})
+	lt("time.Unix", func(r *Run, fr *Frame, cc *ssa.CallCommon, a []Value) Value {
+		ns := Add(Add(Mul(SExt(a[0].(*Term), TW), BVi(1000000000, TW)), SExt(a[1].(*Term), TW)), BV(nsY1970, TW))
+		return timeV(ns)
+	})
+	lt("(time.Time).Format", func(r *Run, fr *Frame, cc *ssa.CallCommon, a []Value) Value {
+		return &StrV{opaque: UF("timefmt", 64, nsOf(a[0]))}
+	})
+	lt("(time.Time).String", func(r *Run, fr *Frame, cc *ssa.CallCommon, a []Value) Value {
+		return &StrV{opaque: UF("timefmt", 64, nsOf(a[0]))}
+	})
+
+	in := e.intrinsics
+	in["math/rand.Intn"] = func(r *Run, fr *Frame, cc *ssa.CallCommon, a []Value) Value {
+		n := a[0].(*Term)
+		r.mustNot(SLe(n, BVi(0, 64)), "panic", lbl("rand.Intn"), "invalid argument to Intn")
+		v := r.hvar(64)
+		r.addPC(And(SLe(BVi(0, 64), v), SLt(v, n)))
+		r.logStub("math/rand.Intn", "val", []Value{v}, []types.Type{types.Typ[types.Int]})
+		return v
+	}
+	in[rtPkg+".Ghost"] = func(r *Run, fr *Frame, cc *ssa.CallCommon, a []Value) Value {
+		k, _ := a[0].(*StrV).Concrete()
+		if v, ok := r.ghost[k]; ok {
+			return v
+		}
+		return False
+	}
+	in[rtPkg+".GhostCount"] = func(r *Run, fr *Frame, cc *ssa.CallCommon, a []Value) Value {
+		k, _ := a[0].(*StrV).Concrete()
+		if v, ok := r.ghost[k]; ok {
+			return BVi(int64(len(v.([]Value))), 64)
+		}
+		return BVi(0, 64)
+	}
+	in[rtPkg+".CallCount"] = func(r *Run, fr *Frame, cc *ssa.CallCommon, a []Value) Value {
+		k, _ := a[0].(*StrV).Concrete()
+		return BVi(int64(len(r.ghostBySuffix("args:", k))), 64)
+	}
+	in[rtPkg+".CallArg"] = func(r *Run, fr *Frame, cc *ssa.CallCommon, a []Value) Value {
+		k, _ := a[0].(*StrV).Concrete()
+		l := r.ghostBySuffix("args:", k)
+		i, j := int(a[1].(*Term).Int()), int(a[2].(*Term).Int())
+		if i >= len(l) || j >= len(l[i].([]Value)) {
+			endPath("engine", "CallArg(%s,%d,%d): no such call/argument", k, i, j)
+		}
+		return l[i].([]Value)[j]
+	}
+	in[rtPkg+".CallOK"] = func(r *Run, fr *Frame, cc *ssa.CallCommon, a []Value) Value {
+		k, _ := a[0].(*StrV).Concrete()
+		l := r.ghostBySuffix("ok:", k)
+		i := int(a[1].(*Term).Int())
+		if i >= len(l) {
+			endPath("engine", "CallOK(%s,%d): no such call", k, i)
+		}
+		return l[i]
+	}
+	in["context.Background"] = func(r *Run, fr *Frame, cc *ssa.CallCommon, a []Value) Value { return &IfaceV{} }
+	in["github.com/hashicorp/go-uuid.GenerateUUID"] = func(r *Run, fr *Frame, cc *ssa.CallCommon, a []Value) Value {
+		return TupleV{concStr("00000000-0000-0000-0000-000000000000"), &IfaceV{}}
+	}
+	// math/big as 64-bit boxes (only NewInt / rand.Int / Int64 are needed)
+	box := func(r *Run, t *Term) Value { return &PtrV{obj: r.newObj(types.Typ[types.Int64], t, "bigint")} }
+	in["math/big.NewInt"] = func(r *Run, fr *Frame, cc *ssa.CallCommon, a []Value) Value { return box(r, a[0].(*Term)) }
+	in["crypto/rand.Int"] = func(r *Run, fr *Frame, cc *ssa.CallCommon, a []Value) Value {
+		max := a[1].(*PtrV).obj.val.(*Term)
+		v := r.hvar(64)
+		r.addPC(And(SLe(BVi(0, 64), v), SLt(v, max)))
+		return TupleV{box(r, v), &IfaceV{}}
+	}
+	in["(*math/big.Int).Int64"] = func(r *Run, fr *Frame, cc *ssa.CallCommon, a []Value) Value { return a[0].(*PtrV).obj.val }
+
+	// ---- decryption as an uninterpreted authenticity predicate (stub set "decryptstub") -------------
+	// success iff authentic(cipher, key, usage); the plaintext is an opaque handle (its structure comes
+	// from the havoc'd decoder).  What "authentic" means is C06's subject.
+	bytesT := types.NewSlice(types.Typ[types.Uint8])
+	dname := "github.com/jcmturner/gokrb5/v8/crypto.DecryptEncPart"
+	e.stub("decryptstub", dname, &stubSpec{outs: []string{"ret0"}, hasErr: true}, func(r *Run, fr *Frame, cc *ssa.CallCommon, a []Value) Value {
+		ed := a[0].(StructV)  // EncryptedData{EType, KVNO, Cipher}
+		key := a[1].(StructV) // EncryptionKey{KeyType, KeyValue}
+		usage := a[2].(*Term)
+		cipher := r.force(&ed[2]).(*SliceV)
+		kv := r.force(&key[1]).(*SliceV)
+		args := []*Term{r.force(&ed[0]).(*Term), r.force(&key[0]).(*Term), usage}
+		name := fmt.Sprintf("authentic_c%d_k%d", cipher.len, kv.len)
+		if cipher.len > 0 {
+			args = append(args, catBytes(sliceBytes(cipher)))
+		}
+		if kv.len > 0 {
+			args = append(args, catBytes(sliceBytes(kv)))
+		}
+		ok := UF(name, 0, args...)
+		r.ghostLog("decrypt-ok", ok)
+		r.ghostLog("decrypt-usage", usage)
+		r.ghostLog("decrypt-key", kv)
+		r.ghostLog("decrypt-keytype", r.force(&key[0]))
+		r.ghostLog("decrypt-cipher", cipher)
+		if r.branch(ok) {
+			pt := r.bytesToSlice([]*Term{UF("plain_"+name, 8, args...)})
+			r.logStub(dname, "val", []Value{pt}, []types.Type{bytesT})
+			return TupleV{pt, &IfaceV{}}
+		}
+		r.logStub(dname, "err", nil, nil)
+		return TupleV{&SliceV{}, r.errNew(fr, "stub: integrity check failed")}
+	})
+
+	// ---- PAC processing as seen by the AP-REQ verifier (stub set "pacstub"): no PAC, or a PAC that fails ----
+	pname := "(*github.com/jcmturner/gokrb5/v8/messages.Ticket).GetPACType"
+	e.stub("pacstub", pname, &stubSpec{outs: []string{"ret0"}, hasErr: true}, func(r *Run, fr *Frame, cc *ssa.CallCommon, a []Value) Value {
+		pt := e.fnByName[pname].Signature.Results().At(1).Type()
+		if r.branch(Eq(r.hvar(1), BVu(1, 1))) {
+			r.logStub(pname, "val", []Value{False}, []types.Type{types.Typ[types.Bool]})
+			return TupleV{False, zeroValue(pt), &IfaceV{}}
+		}
+		r.logStub(pname, "err", []Value{True}, []types.Type{types.Typ[types.Bool]})
+		return TupleV{True, zeroValue(pt), r.errNew(fr, "stub: PAC verification failed")}
+	})
+
+	// ---- ASN.1 / NDR decoders: error, or an arbitrary value of the Go type (stub set "asn1havoc") ---
+	for _, fn := range e.fnByName {
+		if fn.Name() != "Unmarshal" || fn.Signature.Recv() == nil || fn.Pkg == nil {
+			continue
+		}
+		pp := fn.Pkg.Pkg.Path()
+		if !strings.HasPrefix(pp, "github.com/jcmturner/gokrb5/v8/") {
+			continue
+		}
+		pt, ok := fn.Signature.Recv().Type().(*types.Pointer)
+		if !ok || fn.Signature.Params().Len() != 1 || fn.Signature.Results().Len() != 1 {
+			continue
+		}
+		name, typ := fn.String(), pt.Elem()
+		e.stub("asn1havoc", name, &stubSpec{outs: []string{"recv"}, hasErr: true}, func(r *Run, fr *Frame, cc *ssa.CallCommon, a []Value) Value {
+			p := a[0].(*PtrV)
+			if p.obj == nil {
+				r.mustNot(True, "nil", lbl(name), "nil receiver")
+			}
+			// the same input bytes decode to the same result (memoised per run)
+			mk := "memo:" + name
+			for _, b := range sliceBytes(a[1].(*SliceV)) {
+				mk += fmt.Sprintf(",%d", b.id)
+			}
+			var dec *Term
+			var val Value
+			if m, ok := r.ghost[mk]; ok {
+				dec, val = m.([]Value)[0].(*Term), m.([]Value)[1]
+			} else {
+				dec = Eq(r.hvar(1), BVu(1, 1))
+				val = &LazyV{c: &lazyCell{t: typ}}
+				r.ghost[mk] = []Value{dec, val}
+			}
+			if r.branch(dec) {
+				v := val
+				r.store(p, r.force(&v), lbl("havoc "+name))
+				r.logStub(name, "val", []Value{p}, []types.Type{pt})
+				return &IfaceV{}
+			}
+			r.logStub(name, "err", nil, nil)
+			return r.errNew(fr, "stub: decode error")
+		})
+	}
+}
+
+func (r *Run) ghostLog(k string, v Value) {
+	var l []Value
+	if o, ok := r.ghost[k]; ok {
+		l = o.([]Value)
+	}
+	r.ghost[k] = append(l, v)
 }
